@@ -73,3 +73,23 @@ Definition soln_row_ok (row : string * string * string) : bool :=
 Definition soln_table_complete (tab : list (string * string * string)) : bool :=
   forallb (fun cls => forallb (fun kw => Nat.eqb 1 (List.length (filter (fun r => String.eqb (fst (fst r)) cls && String.eqb (snd (fst r)) kw) tab)))
                               soln_all_fields) (exact_classes ++ ga_classes).
+
+(** where the random draws of pymoo_addon come from (Gen: k_draw_sites, k_draw_fallbacks): every draw site - a method of a generator, or a
+    helper / sibling method that is handed one - names the generator the operator was handed ([random_state]); every function that draws fixes
+    that generator before its first draw, falling back to the process-wide stream only when none was handed; the functions the model
+    follows draw exactly as often per visit as the correspondence expects (request log of the scripted generator) *)
+Definition draw_row_ok (r : string * string * string) : bool := String.eqb (snd r) "random_state".
+Definition draw_fallback_ok (r : string * string * string) : bool :=
+  String.eqb (snd r) "global_prng" && mems (snd (fst r)) ["parameter"; "kwargs.get"]%string.
+Definition draw_has_fallback (fb : list (string * string * string)) (r : string * string * string) : bool :=
+  Nat.eqb 1 (List.length (filter (fun f => String.eqb (fst (fst f)) (fst (fst r))) fb)).
+Definition draw_count (tab : list (string * string * string)) (fn meth : string) : nat :=
+  List.length (filter (fun r => String.eqb (fst (fst r)) fn && String.eqb (snd (fst r)) meth) tab).
+Definition draw_sites_of (tab : list (string * string * string)) (fn : string) : list string :=
+  map (fun r => snd (fst r)) (filter (fun r => String.eqb (fst (fst r)) fn) tab).
+Definition draw_modelled_expected : list (string * list string) :=
+  [("tiled_choice", ["choice"; "choice"]); ("SubsetRandomSampling._do", ["choice"]); ("ReducedExchangeCrossover._do", ["randint"; "choice"]);
+   ("ReducedExchangeMutation._do", ["random"; "choice"]); ("MutatorA.hillclimb", ["tiled_choice"; "tiled_choice"; "choice"]);
+   ("MutatorB.hillclimb", ["tiled_choice"; "tiled_choice"; "choice"])]%string.
+Definition draw_modelled_ok (tab : list (string * string * string)) : bool :=
+  forallb (fun e => list_eqb String.eqb (draw_sites_of tab (fst e)) (snd e)) draw_modelled_expected.
